@@ -29,7 +29,7 @@ def program_strategy(role):
 
 
 class ThreadRun:
-    def __init__(self, kind, d, pool_size=7):
+    def __init__(self, kind, d, pool_size=7, prehistory=0):
         import transaction
         import ZODB
         import ZODB.ConflictResolution as CR
@@ -46,6 +46,16 @@ class ThreadRun:
             populate(c.root())
             tm.commit()
         self.oids = {n: c.root()[n]._p_oid for n in NAMES}
+        from vlib import clock
+        for i in range(prehistory):
+            # superseded revisions, so that a pack has something to free
+            clock.CLOCK.advance(1.0)
+            for nme in PLAIN:
+                o = c.root()[nme]
+                o.v = -1 - i
+                o.derived_from = o._p_serial
+            tm.commit()
+        clock.CLOCK.advance(1.0)
         tm.abort()
         c.close()
         self.events = []        # (tick, thread, kind, data)
@@ -127,6 +137,8 @@ class ThreadRun:
                             last_tid[0] = None
                             tm.commit()
                             self.log(th, 'commit-ok', (last_tid[0] if wrote else None, dict(wrote)))
+                            from vlib import clock
+                            clock.CLOCK.advance(0.01)
                             wrote = {}
                             self.log(th, 'boundary')
                         elif k == 'new_oid':
@@ -162,15 +174,14 @@ class ThreadRun:
         if nme not in wrote:
             self.log(th, 'read', (nme, o._p_serial, val))
 
-    def packer(self, th, when_tick_index):
+    def packer(self, th, back=0.0):
         from ZODB.FileStorage.FileStorage import FileStorageError
 
         def run():
-            import time as _t
             from vlib import clock
             try:
                 self.log(th, 'pack-start')
-                self.db.pack(clock.CLOCK.now - 0.0001)
+                self.db.pack(clock.CLOCK.now - back)
                 self.log(th, 'pack-ok')
             except FileStorageError as e:
                 self.log(th, 'pack-refused', str(e))
@@ -178,6 +189,7 @@ class ThreadRun:
 
     def run(self, threads, schedule, line_funcs=()):
         """threads: [(name, callable)]"""
+        self.before = self.history()        # (a pack running among the threads may remove these)
         s = sched.Scheduler(schedule)
         self.sched = s
         for name, fn in threads:
@@ -204,6 +216,11 @@ class ThreadRun:
                     cls, state = parse_record(r.data)
                     revs[names[r.oid]].append((t.tid, state))
         getattr(it, 'close', lambda: None)()
+        before = getattr(self, 'before', None)
+        if before:
+            for nme in revs:
+                have = {t for t, _ in revs[nme]}
+                revs[nme] = sorted([x for x in before[nme] if x[0] not in have] + revs[nme], key=lambda x: x[0])
         return revs
 
 
